@@ -26,7 +26,7 @@ Bump(i) == TLCSet(i, TLCGet(i) + 1)
 \* ---------------------------------------------------------------------------
 \* Conformance: the observed step is the step the specification's transition function takes.
 \* fields whose order carries no meaning (did tables) are compared as sets
-SetLike == {"pay", "kids", "bindings", "didBal", "accLists", "accIds", "accAuths", "versions", "seeds", "faults", "faultIdx", "fishing", "unbond"}
+SetLike == {"pay", "kids", "bindings", "didBal", "accLists", "accIds", "accAuths", "versions", "seeds", "faults", "faultIdx", "fishing", "unbond", "redel"}
 Core(st) == [k \in (DOMAIN st) \ {"inexact", "junk"} |-> IF k \in SetLike THEN Rng(st[k]) ELSE st[k]]
 Diff(a, b) == {k \in (DOMAIN a) \cap (DOMAIN b) : a[k] # b[k]} \cup ((DOMAIN a) \ (DOMAIN b)) \cup ((DOMAIN b) \ (DOMAIN a))
 ConfReg == 2 * Len(Names)
